@@ -36,6 +36,12 @@ func init() {
 		}, {
 			Name: "queue-direct",
 			Run:  queueDirect,
+		}, {
+			Name: "encodings",
+			Run:  encodingsExtra,
+		}, {
+			Name: "nested",
+			Run:  nestedExtra,
 		}},
 		Shrink:   Shrinker(),
 		Parallel: true,
